@@ -36,38 +36,44 @@ ASSUMPTIONS = [
 
 # ---------------------------------------------------------------------------------------------------- v1
 def v1_formula_oracle(ctx, w: G.V1World, op, res, spec, pre_glp):
-    """minted / redeemed amount = price x amount / value per share with the contract's round-down steps (independent Fractions)"""
+    """minted / redeemed amount = price x amount / value per share, net of the observed fee, with the contract's round-down steps.
+    Written in USD terms from the property text (value per share = floor(AUM/1e12) / supply, both 1e18-scaled), not from the code:
+    every round-down step may lose strictly less than one unit (token wei scaled to USDG wei, USDG wei, GLP wei) and never gains."""
     r = w.market.market_status.data
     tok = op["tok"]
-    d = w.token(tok).decimal
-    P = F(r[f"{tok}_price"])
-    aumU = G.floor_frac(F(r["aum"]) / G.E12)
-    supply = F(r["glp"])
     t = w.token(tok)
+    d = t.decimal
+    price = F(r[f"{tok}_price"]) / G.E30                 # USD per token
+    aumU = G.floor_frac(F(r["aum"]) / G.E12)            # pool value in USDG wei
+    supply = F(r["glp"])                                 # GLP wei
+    rep = {"world": spec, "ops": [ser_op(op)]}
+    if supply == 0 or aumU == 0 or price == 0:
+        return          # degenerate rows (no GLP outstanding / AUM below one USDG unit): value per share is undefined
+    per_share = F(aumU) / supply                         # USDG wei per GLP wei = USD per GLP
     if op["kind"] == "buy":
         a = F(op["amount"])
-        usdg0 = G.floor_frac(a * 10 ** d * P / G.E30)
+        usdg0 = G.floor_frac(F(G.floor_frac(a * 10 ** d * price)) * G.E18 / 10 ** d)
         fee = F(w.market.get_fee_basis_points(t, Decimal(usdg0), True))
-        after = a - a * fee / 10000
-        usdg = G.floor_frac(after * 10 ** d * P / G.E30)
-        want = F(G.floor_frac(usdg * supply / aumU), G.E18)
+        ideal = a * price * (1 - fee / 10000) / per_share                       # GLP, no rounding
+        unit_usdg = F(10 ** max(0, 18 - d) + 1)                                  # USDG wei lost by the two USDG round-downs
+        slack = (unit_usdg / per_share + 1) / G.E18
         got = F(res)
-        unit = F(1, G.E18)
+        if got * G.E18 % 1 != 0:
+            ctx.violate("v1.buy_glp.formula", f"buy_glp({tok}, {op['amount']}) returned {res}: not a whole number of GLP wei", rep)
+        what = f"buy_glp({tok}, {op['amount']}) minted {res} GLP; price x amount x (1 - {float(fee):.4g} bp) / value per share = {float(ideal)!r}"
     else:
         g = F(op["amount"]) if op["amount"] != 0 else F(pre_glp)
-        usdg = G.floor_frac(g * G.E18 / supply * aumU)
+        usdg = G.floor_frac(g * G.E18 * per_share)
         fee = F(w.market.get_fee_basis_points(t, Decimal(usdg), False))
-        red = usdg / (P / G.E30)
-        want = (red - red * fee / 10000) / 10 ** d
+        ideal = g * per_share / price * (1 - fee / 10000)                        # tokens, no rounding
+        slack = F(1, G.E18) / price
         got = F(res)
-        unit = F(G.E30, 1) / P / 10 ** d        # one USDG unit of slack in the rounded-down intermediate
-    if got == want or abs(got - want) <= G.TOL30 * max(abs(got), abs(want)):
-        return
-    if abs(got - want) <= unit * (1 + F(1, 10 ** 6)):
-        ctx.count("v1_floor_edge_cases")
-        return
-    ctx.violate(f"v1.{op['kind']}_glp.formula", f"{op['kind']}_glp({tok}, {op['amount']}) returned {res}, the round-down formula gives {float(want)!r}",
-                {"world": spec, "ops": [ser_op(op)]})
+        what = f"sell_glp({tok}, {op['amount']}) paid {res}; GLP x value per share / price x (1 - {float(fee):.4g} bp) = {float(ideal)!r}"
+    tol = G.TOL30 * max(abs(got), abs(ideal))
+    if got > ideal + tol:
+        ctx.violate(f"v1.{op['kind']}_glp.formula", what + " (more than the formula allows)", rep)
+    elif got < ideal - slack * (1 + F(1, 10 ** 6)) - tol:
+        ctx.violate(f"v1.{op['kind']}_glp.formula", what + f" (short by more than the round-down slack {float(slack)!r})", rep)
 
 
 def ser_op(op):
